@@ -212,6 +212,42 @@ def construct(ex, cls: type, args, kwargs, s: St):
     if decl is not None:
         yield from decl(ex, cls, args, kwargs, s)
         return
+    import dataclasses
+    if dataclasses.is_dataclass(cls) and ex.model.has_class(cls.__name__):
+        # generic dataclass constructor: fresh object whose fields are the arguments / declared defaults
+        obj = alloc(s, cls.__name__, OBJ(cls.__name__))
+        s.assume(*type_facts(obj, s))
+        flds = [f for f in dataclasses.fields(cls) if f.init]
+        given = dict(zip([f.name for f in flds], args))
+        given.update(kwargs)
+        for f in flds:
+            decl_a = ex.model.attr(cls.__name__, f.name)
+            fty = decl_a[1] if decl_a and decl_a[0] == "attr" else ANY
+            if f.name in given:
+                v = to_v(given[f.name], s)
+            elif f.default_factory is not dataclasses.MISSING:
+                fac = f.default_factory
+                if fac is dict:
+                    v = alloc_dict(s, fty[1] if fty[0] == "dict" else ANY, fty[2] if fty[0] == "dict" else ANY).t
+                elif fac is list:
+                    v = alloc_seq(s, [], "list").t
+                elif fac is set:
+                    v = alloc_set(s, ANY).t
+                else:
+                    v = smt.fresh_v(f"fld_{f.name}")
+            elif f.default is not dataclasses.MISSING:
+                v = to_v(lift(f.default), s)
+            else:
+                s_bad = s.fork()
+                yield s_bad, Raised("TypeError", None, {"by": f"{cls.__name__}() missing {f.name}"})
+                return
+            if f.name in s.heap.f:
+                s.heap = s.heap.with_field(f.name, z3.Store(s.heap.f[f.name], obj.t, v))
+            else:
+                s.assume(smt.attr_func(f.name)(obj.t) == v)
+        s.trace.append(("new", cls.__name__))
+        yield s, obj
+        return
     key = ex.project.key_for_function(getattr(cls, "__init__", None))
     if key is not None and ex.project.contracts.get(key):
         yield from ex.call_repo_function(key, cls.__init__, None, args, kwargs, s, constructing=cls)
